@@ -39,8 +39,15 @@ We can check the Eckmann-Hilton argument, up to interchanger.
     :align: center
 """
 
+import os
+
 from discopy import cat, messages, drawing, rewriting
 from discopy.cat import Ob
+
+# Verification hook (inert unless DISCOPY_VERIF=1 *and* an observer is installed):
+# lets an external harness observe every diagram built inside library code.
+_VERIF = os.environ.get("DISCOPY_VERIF") == "1"
+_verif_hook = None
 
 
 class Ty(Ob):
@@ -352,6 +359,8 @@ class Diagram(cat.Arrow):
             layers = layers >> cat.Id(cod)
         self._layers, self._offsets = layers, tuple(offsets)
         super().__init__(dom, cod, boxes, _scan=False)
+        if _VERIF and _verif_hook is not None:
+            _verif_hook(self)
 
     @property
     def offsets(self):
